@@ -41,6 +41,10 @@ type dirModel struct {
 	empties  int            // zero-length messages written
 	expect   [][]byte       // what the reader must have received so far (strict)
 	nReorder int
+	// completeness bookkeeping that stays valid under the weak oracle
+	mayDrop      map[int]bool // serial -> the script may have dropped it (drop counter, filter)
+	unknownDrops int          // messages removed by Drop while the model queue was out of sync
+	emptyMayDrop int
 }
 
 func (d *dirModel) write(msg []byte, serial int) string {
@@ -50,6 +54,13 @@ func (d *dirModel) write(msg []byte, serial int) string {
 		d.written[serial] = msg
 	}
 	rejected := d.filter >= 0 && len(msg) >= 1 && int(msg[0]) == d.filter
+	if d.dropN > 0 || rejected {
+		if len(msg) == 0 {
+			d.emptyMayDrop++
+		} else {
+			d.mayDrop[serial] = true
+		}
+	}
 	switch {
 	case d.dropN > 0:
 		d.dropN--
@@ -138,7 +149,7 @@ func TestC18Bridge(t *testing.T) {
 		rbuf := [2]int{bufSize[1], bufSize[0]}
 		dm := [2]*dirModel{}
 		for d := range dm {
-			dm[d] = &dirModel{filter: -1, strict: true, written: map[int][]byte{}}
+			dm[d] = &dirModel{filter: -1, strict: true, written: map[int][]byte{}, mayDrop: map[int]bool{}}
 		}
 		c.Set("reader_buf", fmt.Sprint(rbuf))
 		serial := 0
@@ -313,7 +324,16 @@ func TestC18Bridge(t *testing.T) {
 				}
 				if m.strict {
 					end := min(off+k, l)
+					for _, q := range m.queue[off:end] {
+						if len(q) >= 4 {
+							m.mayDrop[int(q[1])<<16|int(q[2])<<8|int(q[3])] = true
+						} else {
+							m.emptyMayDrop++
+						}
+					}
 					m.queue = append(m.queue[:off:off], m.queue[end:]...)
+				} else {
+					m.unknownDrops += min(k, l-off)
 				}
 				c.Op("Drop dir%d off%d n%d", d, off, k)
 				c.Label("op/Drop")
@@ -356,6 +376,51 @@ func TestC18Bridge(t *testing.T) {
 		}
 		deliver("final Process", br.Process)
 		verify("final Process", true)
+		// ---- completeness: flush whatever is still withheld and account for every message
+		for d := 0; d < 2; d++ {
+			m := dm[d]
+			br.Filter(d, nil)
+			m.filter = -1
+			br.DropNextNWrites(d, 0)
+			m.dropN = 0
+			br.ReorderNextNWrites(d, 1)
+			m.reorderN = 1
+			serial++
+			msg := mkMsg(0, serial, 8)
+			if _, err := conns[d].Write(append([]byte(nil), msg...)); err != nil {
+				t.Fatalf("C18: flush write: %v", err)
+			}
+			m.write(msg, serial)
+		}
+		deliver("flush Process", br.Process)
+		verify("flush Process", true)
+		for d := 0; d < 2; d++ {
+			m := dm[d]
+			got := cols[d].snapshot()
+			have := map[int]bool{}
+			empties := 0
+			for _, g := range got {
+				if len(g) >= 4 {
+					have[int(g[1])<<16|int(g[2])<<8|int(g[3])] = true
+				} else if len(g) == 0 {
+					empties++
+				}
+			}
+			missing := 0
+			example := -1
+			for sNo := range m.written {
+				if !have[sNo] && !m.mayDrop[sNo] {
+					missing++
+					example = sNo
+				}
+			}
+			if e := m.empties - m.emptyMayDrop - empties; e > 0 {
+				missing += e
+			}
+			if missing > m.unknownDrops {
+				t.Fatalf("C18: direction %d: %d written message(s) (e.g. serial %d) were neither delivered nor dropped/filtered by any request of the script (%d removed by Drop calls)", d, missing, example, m.unknownDrops)
+			}
+		}
 		for d := 0; d < 2; d++ {
 			if dm[d].nReorder >= 2 {
 				c.Label("reorder-batches>=2")
